@@ -18,6 +18,12 @@ CLAIMED = {
         "Spec-free oracle: the library is compared with itself, so it cannot demand more than the statement. Covers only inputs the workload produces.",
         "DESIGN.md section 3, C02",
     ),
+    "C09": (
+        "runtime monitor: deletion / corruption of every field occurrence of generated valid messages; mandatory-ness decided by an independent layout acceptor; culprit identification checked on structured and rendered errors",
+        "Exploration: for valid generated messages of all 30 types every occurrence is deleted (judged when the independent layout acceptor rejects the remaining tag sequence) and every structured field is given three certainly-invalid contents; the library must reject and the error must identify tag and message type / tag and content.",
+        "Trusted base: spec/layout.rs acceptor; identification is judged leniently (payload or rendered text).",
+        "DESIGN.md section 3, C09",
+    ),
     "C12": (
         "runtime monitor: metamorphic agreement of five entry points with the typed API; exhaustive 30x30 typed matrix and codes 000-999",
         "Exploration, exhaustive in the type dimensions: every (announced, requested) pair of the 30 types and every three-digit code is driven through parse_auto, typed parse and the parse / validate / publish plugin handlers on real messages; results are compared with the typed API and with the fixed T03 / unsupported expectations.",
